@@ -2,9 +2,10 @@
 import interp_common
 from core import rng
 
-MODULES = ["Props.C13", "Props.RunTie"]
+MODULES = ["Props.C13", "Props.RunTie", "Props.MatchTie"]
 THEOREMS = ["Props.C13.c13_advance", "Props.C13.c13_last_blank", "Props.C13.c13_stop_ends_run", "Props.C13.c13_stop_cut", "Props.C13.c13_skip_cut",
-            "Props.RunTie.consider_line_source_is_model", "Props.RunTie.advance_source"]
+            "Props.RunTie.consider_line_source_is_model", "Props.RunTie.advance_source",
+            "Props.MatchTie.matches_source_is_model", "Props.MatchTie.c13_stop_cut_source", "Props.MatchTie.c13_skip_cut_source"]
 
 
 def structured(seed, i):
